@@ -25,7 +25,8 @@ ASSUMPTIONS = [
 
 AGGS = ["count", "sum", "min", "max", "avg", "var_pop", "var_samp", "stddev_pop", "stddev_samp"]
 AGG_SPELL = {"stddev_pop": ["stddev_pop", "stddev", "std"], "var_pop": ["var_pop", "variance"]}
-INNER = ["size", "size", "hardlinks", "uid", "length(name)", "line_count"]
+# "an aggregate may wrap a scalar expression": integer-valued arithmetic, values below zero included
+INNER = ["size", "size", "hardlinks", "uid", "length(name)", "size - 100", "length(name) - 6", "size * 2", "-size", "line_count"]
 
 
 def examples(tier):
